@@ -138,6 +138,9 @@ RULES = [
     (r"cadzow:denoise:argswap:L91", "outside", "trajectory(y, x): the embedding of the transposed layout satisfies every stated clause as well (identity at full rank, plane wave at rank one, noise reduced)"),
     (r"smooth:rolling_window:(not|cmp|const):L62", "outside", "windows of 3-4 samples returned unsmoothed or smoothed: constants and length are kept either way"),
     (r"smooth:rolling_window:argswap:", "equivalent", "np.convolve is commutative"),
+    (r"smooth:non_uniform_savgol:(const|cmp):L11[04]", "outside", "argument validation (even window, order equal to the window): the property speaks about valid calls"),
+    (r"smooth:non_uniform_savgol:const:", "equivalent", "range(-1, n): one more iteration whose writes are overwritten by the regular ones"),
+    (r"smooth:smooth_interpolate_savgol:", "outside", "the property states that NaN gaps are filled with FINITE values (checked); which interpolant fills them is not stated; shape[0] vs [-1], [0] of np.where"),
     (r"smooth:lp:", "outside", "corner of the smoother's low-pass (design constant); shape[0] vs [-1] of a 1-D series"),
     # ---- ibldsp.waveforms
     (r"waveforms:compute_spike_features:const:L642", "equivalent", "1000 vs 1001 / 999 in the conversion of the recovery offset: absorbed by the rounding to whole samples"),
@@ -175,6 +178,18 @@ def load(path):
     return out
 
 
+def load_all(path):
+    out = []
+    for ln in open(path, errors="replace"):
+        if ln.startswith("{"):
+            try:
+                d = json.loads(ln)
+                out.append((d["verdict"], d["id"], d.get("detail", "")))
+            except Exception:
+                pass
+    return out
+
+
 def classify(mid):
     for pat, cls, why in RULES:
         if re.search(pat, mid):
@@ -184,6 +199,13 @@ def classify(mid):
 
 def main():
     rows = load(sys.argv[1])
+    # further files: later re-runs of single mutants against the CURRENT checks (selftest/automut.py --match ...): a survivor / inconclusive mutant of
+    # the sweep that every re-run catches is counted as caught on re-run
+    rer = collections.defaultdict(list)
+    for extra in [a for a in sys.argv[2:] if not a.startswith("--")]:
+        for v, mid, det in load_all(extra):
+            rer[mid].append(v)
+    rows = [(("CAUGHT-ON-RERUN" if v in ("SURVIVED", "INCONCLUSIVE") and rer.get(mid) and all(x.startswith("CAUGHT") for x in rer[mid]) else v), mid, det) for v, mid, det in rows]
     n = collections.Counter(v for v, _, _ in rows)
     print(f"mutants run: {len(rows)}  " + "  ".join(f"{k}={v}" for k, v in sorted(n.items())))
     surv = [(mid, det) for v, mid, det in rows if v in ("SURVIVED", "INCONCLUSIVE")]
